@@ -9,6 +9,7 @@ import CC.Drv.Mem
 import CC.Drv.JH
 import CC.Drv.Groestl
 import CC.Drv.Simd
+import CC.Simd.Dispatch
 import CC.Simd.Backends
 import CC.Drv.Blake
 import CC.Drv.Threefish
@@ -28,6 +29,23 @@ structure DS where
 /-- `cfg backend <name>`: the algorithm models execute on the implementation model of that
     backend (`CC.Simd.Mach.ofBackend`, proved equal to `Mach.ref` in C03). -/
 def machOfName : String → Option CC.Simd.Mach := CC.Simd.Mach.ofName
+
+/-- `dispatch select <macro> <sse2><ssse3><sse4.1><avx><avx2>`: the `Machine` class the compile-time (no-std) ladder of
+    the model (`CC.Simd.Dispatch.select · .nostd`) takes under that static feature assignment; `SSE41` and `AVX` are
+    one Rust type and print as `sse41`. -/
+def dispatchSelect (mac bits : String) : String :=
+  let m? : Option CC.Simd.Dispatch.Macro := match mac with
+    | "dispatch" => some .dispatch | "light128" => some .light128 | "light256" => some .light256 | _ => none
+  match m?, bits.toList with
+  | some m, [a, b, c, d, e] =>
+    if [a, b, c, d, e].all (fun ch => ch == '0' || ch == '1') then
+      let f : CC.Simd.Dispatch.Feat := ⟨a == '1', b == '1', c == '1', d == '1', e == '1'⟩
+      match CC.Simd.Dispatch.select m .nostd f with
+      | some arm => "sel=" ++ (match arm.machine with
+          | .generic => "generic" | .sse2 => "sse2" | .ssse3 => "ssse3" | .sse41 => "sse41" | .avx => "sse41" | .avx2 => "avx2")
+      | none => "sel=unimplemented"
+    else "bad-op"
+  | _, _ => "bad-op"
 
 def step (ds : DS) (line : String) : DS × String :=
   let toks := (line.trimAscii.toString.splitOn " ").filter (· != "")
@@ -69,6 +87,7 @@ def step (ds : DS) (line : String) : DS × String :=
     let (s, out) := CC.Drv.Skein.step ds.cfg ds.skein toks
     ({ ds with skein := s }, out)
   | "conc" :: _ => (ds, CC.Drv.Conc.step ds.cfg toks)
+  | ["dispatch", "select", mac, bits] => (ds, dispatchSelect mac bits)
   | _ => (ds, "bad-op")
 
 partial def loop (h : IO.FS.Stream) (out : IO.FS.Stream) (ds : DS) : IO Unit := do
